@@ -33,8 +33,9 @@ def build(base, case, canonical):
     root = os.path.join(base, "root")
     shutil.rmtree(base, ignore_errors=True)
     os.makedirs(root)
-    os.makedirs(os.path.join(base, "outside"))
-    with open(os.path.join(base, "outside", "o.c"), "w") as f:
+    # the outside directory's name starts with the root's name: containment must be by path components, not by string prefix
+    os.makedirs(os.path.join(base, "root-old"))
+    with open(os.path.join(base, "root-old", "o.c"), "w") as f:
         f.write("int o;\n")
     second = B_SECOND[b2]
     if canonical and second is not None:
@@ -75,7 +76,7 @@ def build(base, case, canonical):
         if "L3" in need:
             links["srcl"] = "src"
         if "L4" in need:
-            links["src/out.c"] = "../../outside/o.c"
+            links["src/out.c"] = "../../root-old/o.c"
         if "L5" in need:
             links["lnk/a.c"] = "../src/a.c"
         if "@" in gopt:
